@@ -23,9 +23,9 @@
                  wait), the peer's pipelineRecvFinalAck on its timer.  Our acker always has something to say, so
                  it emits a line every max(gate sleep, poll) ticks whatever the pause length.
 
-   Each machine exists twice, as in Model/Pause.v: built from the reader machine [rstep] (concrete: ydstep,
-   udstep, vdstep) and with the readers replaced by their abstractions (ystep, ustep, vstep), related by
-   [yabs], [uabs], [vabs].  Executable definitions only. *)
+   Each machine exists twice, as in Model/Pause.v: built from the reader machine [rstep] (ydstep, udstep, vdstep)
+   and with the readers replaced by their abstractions (ystep, ustep, vstep), related by [yabs], [uabs], [vabs].
+   Executable definitions only. *)
 From Trzsz Require Export Base.Bytes.
 From Trzsz Require Import Gen.Consts Model.Pause.
 
@@ -594,3 +594,176 @@ Fixpoint vrun (v : vst) (xs : list vev) : option vst :=
 Definition vinit : vst := mkV false K2Call false RIdle [] false false.
 
 End DownFinal.
+
+(* ---------- (e') upload after the last DATA frame, with our reader as the reader machine ---------- *)
+
+Record udst := mkUD {
+  udFA : rstate nat;     (* our reader in pipelineRecvFinalAck: its core carries OUR pause flags *)
+  udFin : bool;
+  udPK : pkph;
+  udSaved : bool;
+  udPM : pmph;
+  udErr : bool;          (* our reader returned an error *)
+  udBadPM : bool;        (* the peer gave up waiting for the MD5 line *)
+  udEp : epi }.
+
+Section UpFinalConc.
+Variable cf : cfg.
+Variable FP : nat.
+Variable P : nat.
+
+Definition ud_setFA (s : udst) (a : rstate nat) (err : bool) : udst :=
+  mkUD a (udFin s) (udPK s) (udSaved s) (udPM s) err (udBadPM s) (udEp s).
+
+Definition feedFA (s : udst) (e : ev nat) : udst :=
+  let '(a, o) := rstep nat cls_a cf (udFA s) e in
+  match o with
+  | None => ud_setFA s a (udErr s)
+  | Some (ODelivered O _) => ud_setFA s a (udErr s)
+  | Some (ODelivered (S _) _) =>
+    mkUD a true (udPK s) (udSaved s) (match udPM s with PMRead _ => PMDone | p => p end) (udErr s) (udBadPM s) (udEp s)
+  | Some _ => ud_setFA s a true
+  end.
+
+Definition ud_poll (s : udst) : udst :=
+  if udSaved s
+  then feedFA (mkUD (udFA s) (udFin s) PKDone true (match udPM s with PMWait => PMRead (cT cf) | p => p end)
+                    (udErr s) (udBadPM s) (udEp s)) (EArrive 1%nat)
+  else feedFA (mkUD (udFA s) (udFin s) (PKWait FP) false (udPM s) (udErr s) (udBadPM s) (udEp s)) (EArrive 0%nat).
+
+Definition ud_quiescent (s : udst) : bool :=
+  negb (match ph (udFA s) with PIdle => negb (udFin s) | _ => false end).
+
+Definition ud_tickPM (s : udst) : udst :=
+  match udPM s with
+  | PMRead (S (S t)) => mkUD (udFA s) (udFin s) (udPK s) (udSaved s) (PMRead (S t)) (udErr s) (udBadPM s) (udEp s)
+  | PMRead _ => mkUD (udFA s) (udFin s) (udPK s) (udSaved s) (udPM s) (udErr s) true (udEp s)
+  | _ => s
+  end.
+Definition ud_tickPK (s : udst) : udst :=
+  match udPK s with
+  | PKWait (S (S j)) => mkUD (udFA s) (udFin s) (PKWait (S j)) (udSaved s) (udPM s) (udErr s) (udBadPM s) (udEp s)
+  | PKWait _ => ud_poll s
+  | PKDone => s
+  end.
+Definition ud_setEp (s : udst) (e : epi) : udst :=
+  mkUD (udFA s) (udFin s) (udPK s) (udSaved s) (udPM s) (udErr s) (udBadPM s) e.
+
+Definition udstep (s : udst) (x : uev) : option udst :=
+  match x with
+  | UFACall => match ph (udFA s) with PIdle => if udFin s then None else Some (feedFA s ECall) | _ => None end
+  | USaved =>
+    if udSaved s then None
+    else match udPK s with
+         | PKWait _ => Some (ud_poll (mkUD (udFA s) (udFin s) (udPK s) true (udPM s) (udErr s) (udBadPM s) (udEp s)))
+         | PKDone => None
+         end
+  | UPause =>
+    match udEp s with
+    | EpResumed _ _ => None
+    | e => Some (ud_setEp (feedFA s EPause) (ep_pause e))
+    end
+  | UResume =>
+    match udEp s with
+    | EpPausing e => if pausing (core (udFA s)) then Some (ud_setEp (feedFA s EResume) (EpResumed e O)) else None
+    | _ => None
+    end
+  | UTick =>
+    if ud_quiescent s && (match udEp s with EpPausing e => (e <? P)%nat | _ => true end) then
+      Some (ud_setEp (ud_tickPK (feedFA (ud_tickPM s) ETick)) (u_ep_tick cf (udEp s)))
+    else None
+  end.
+
+Fixpoint udrun (s : udst) (xs : list uev) : option udst :=
+  match xs with
+  | [] => Some s
+  | x :: xs' => match udstep s x with Some s' => udrun s' xs' | None => None end
+  end.
+
+Definition udinit : udst := ud_poll (mkUD (rinit nat) false (PKWait O) false PMWait false false EpNone).
+
+Definition uabs (s : udst) : ust :=
+  mkU (pausing (core (udFA s)))
+      (match ph (udFA s) with PIdle => OIdle | PGate _ j => OGate j | PRead _ => ORead (tmo_val (core (udFA s))) end)
+      (queue (udFA s)) (udFin s) (udPK s) (udSaved s) (udPM s) (udErr s || udBadPM s) (udEp s).
+
+End UpFinalConc.
+
+(* ---------- (f') download final-ack loop, with the peer's reader as the reader machine and the gate of Pause.v ---------- *)
+
+Record vdst := mkVD {
+  vdPausing : bool;
+  vdK : k2ph;
+  vdSaved : bool;
+  vdPF : rstate wline;   (* the peer's reader in pipelineRecvFinalAck *)
+  vdPfin : bool;
+  vdErr : bool }.
+
+Section DownFinalConc.
+Variable cf : cfg.
+Variable FP : nat.
+
+Definition vd_setK (s : vdst) (k : k2ph) : vdst := mkVD (vdPausing s) k (vdSaved s) (vdPF s) (vdPfin s) (vdErr s).
+
+Definition feedPF (s : vdst) (e : ev wline) : vdst :=
+  let '(r, o) := rstep wline cls_w cf (vdPF s) e in
+  match o with
+  | None => mkVD (vdPausing s) (vdK s) (vdSaved s) r (vdPfin s) (vdErr s)
+  | Some (ODelivered (WLData k) _) => mkVD (vdPausing s) (vdK s) (vdSaved s) r (vdPfin s || is_final k) (vdErr s)
+  | Some _ => mkVD (vdPausing s) (vdK s) (vdSaved s) r (vdPfin s) true
+  end.
+
+(* checkStopAndPause("SUCC") from its loop condition: the gate of Model/Pause.v *)
+Definition vd_gate (s : vdst) : vdst :=
+  match gate_enter cf (vdPausing s) false with
+  | (SSleep j, _) => feedPF (vd_setK s (K2Sleep j)) (EArrive WLKeep)
+  | (SPassed, _) => vd_setK s K2Passed
+  | _ => s
+  end.
+
+Definition vd_quiescent (s : vdst) : bool :=
+  match vdK s with K2Call => false | K2Passed => false | _ => true end
+  && negb (match ph (vdPF s) with PIdle => negb (vdPfin s) | _ => false end).
+
+Definition vd_tickK (s : vdst) : vdst :=
+  match vdK s with
+  | K2Sleep (S (S j)) => vd_setK s (K2Sleep (S j))
+  | K2Sleep _ => vd_gate s
+  | K2Wait (S (S j)) => vd_setK s (K2Wait (S j))
+  | K2Wait _ => vd_setK s K2Call
+  | _ => s
+  end.
+
+Definition vdstep (s : vdst) (x : vev) : option vdst :=
+  match x with
+  | VKCall => match vdK s with K2Call => Some (vd_gate s) | _ => None end
+  | VKWrite =>
+    match vdK s with
+    | K2Passed =>
+      if vdSaved s then Some (feedPF (vd_setK s K2Done) (EArrive (WLData 1%nat)))
+      else Some (feedPF (vd_setK s (K2Wait FP)) (EArrive (WLData 0%nat)))
+    | _ => None
+    end
+  | VSaved =>
+    if vdSaved s then None
+    else Some (mkVD (vdPausing s) (match vdK s with K2Wait _ => K2Call | k => k end) true (vdPF s) (vdPfin s) (vdErr s))
+  | VPFCall => match ph (vdPF s) with PIdle => if vdPfin s then None else Some (feedPF s ECall) | _ => None end
+  | VPause => Some (mkVD true (vdK s) (vdSaved s) (vdPF s) (vdPfin s) (vdErr s))
+  | VResume => Some (mkVD false (vdK s) (vdSaved s) (vdPF s) (vdPfin s) (vdErr s))
+  | VTick => if vd_quiescent s then Some (vd_tickK (feedPF s ETick)) else None
+  end.
+
+Fixpoint vdrun (s : vdst) (xs : list vev) : option vdst :=
+  match xs with
+  | [] => Some s
+  | x :: xs' => match vdstep s x with Some s' => vdrun s' xs' | None => None end
+  end.
+
+Definition vdinit : vdst := mkVD false K2Call false (rinit wline) false false.
+
+Definition vabs (s : vdst) : vst :=
+  mkV (vdPausing s) (vdK s) (vdSaved s)
+      (match ph (vdPF s) with PRead _ => RRead (tmo_val (core (vdPF s))) | _ => RIdle end)
+      (queue (vdPF s)) (vdPfin s) (vdErr s).
+
+End DownFinalConc.
